@@ -566,6 +566,37 @@ def tablerowCols (P : Prims) (tablerow : Bool) (cols : Option Expr) (loc : Loc) 
     | none => pure (some 2147483647)
   else pure none
 
+/-- run the iterations of one loop execution, then the deferred restore -/
+def loopIterate (P : Prims) (loc : Loc) (tablerow : Bool) (var : Bytes) (colsE : Option Expr) (bodyM : M Status)
+    (items : List GoVal) : M Status := do
+  let cols ← tablerowCols P tablerow colsE loc
+  let prevLoop ← M.getVar nmForloop
+  let prevVar ← M.getVar var
+  let st ← iterateM var cols bodyM items.length items 0 []
+  restoreLoopVars var prevLoop prevVar
+  pure st
+
+/-- the `else` clause renders exactly when nothing is selected (and there is an `else`) -/
+def loopDispatch (P : Prims) (loc : Loc) (tablerow : Bool) (var : Bytes) (colsE : Option Expr) (bodyM : M Status)
+    (elseM : Option (M Status)) (items : List GoVal) : M Status :=
+  match items, elseM with
+  | [], some els => els
+  | _, _ => loopIterate P loc tablerow var colsE bodyM items
+
+/-- the renderer built by `loopTagCompiler`, given the rendering of its body and of its `else`
+    clause (`tooMany`: the block has more than one clause). Order as in the Go code: collection,
+    iterator, modifiers, clause-count check, `else` when nothing is selected, iterations, restore. -/
+def loopRun (P : Prims) (path : Bytes) (loc : Loc) (tablerow : Bool) (var : Bytes) (e : Expr) (mods : LoopMods)
+    (bodyM : M Status) (tooMany : Bool) (elseM : Option (M Status)) : M Status :=
+  wrapAt path loc (do
+    let env ← M.getEnv
+    let v ← M.ofRes (evaluate P env e)
+    let items0 ← M.ofRes (loopItems v)
+    let off ← intModifier P mods.offset loc
+    let lim ← intModifier P mods.limit loc
+    if tooMany then M.fail (.plain (.other "forElse")) else
+    loopDispatch P loc tablerow var mods.cols bodyM elseM (selectItems mods.reversed off lim items0))
+
 mutual
 def renderNode (c : RCtx) : Node → M Status
   | .text line src => wrapFailAt c.cfg.path ⟨line, true⟩ (do writeM src; pure .done)
@@ -595,24 +626,11 @@ def renderNode (c : RCtx) : Node → M Status
       let sel ← M.ofRes (evaluate c.P env subject)
       renderCases c sel cases)
   | .loop line tablerow var e mods body clauses =>
-    let loc : Loc := ⟨line, true⟩
-    wrapAt c.cfg.path loc (do
-      let env ← M.getEnv
-      let v ← M.ofRes (evaluate c.P env e)
-      let items0 ← M.ofRes (loopItems v)
-      let off ← intModifier c.P mods.offset loc
-      let lim ← intModifier c.P mods.limit loc
-      let items := selectItems mods.reversed off lim items0
-      if clauses.length > 1 then M.fail (.plain (.other "forElse")) else
-      match items, clauses with
-      | [], [els] => renderBlockBody c els
-      | _, _ => do
-        let cols ← tablerowCols c.P tablerow mods.cols loc
-        let prevLoop ← M.getVar nmForloop
-        let prevVar ← M.getVar var
-        let st ← iterateM var cols (renderBlockBody c body) items.length items 0 []
-        restoreLoopVars var prevLoop prevVar
-        pure st)
+    let bodyM := renderBlockBody c body
+    match clauses with
+    | [] => loopRun c.P c.cfg.path ⟨line, true⟩ tablerow var e mods bodyM false none
+    | [els] => loopRun c.P c.cfg.path ⟨line, true⟩ tablerow var e mods bodyM false (some (renderBlockBody c els))
+    | _ :: _ :: _ => loopRun c.P c.cfg.path ⟨line, true⟩ tablerow var e mods bodyM true none
   | .cycle line group values =>
     let loc : Loc := ⟨line, true⟩
     wrapFailAt c.cfg.path loc (do
